@@ -50,6 +50,12 @@ RULE = ("scheduler: task sets x budget partitions; complete enumeration of {1-2 
         "task key gh: constructed and dropped): systematic arm-work-wait shapes x work sequences x budgets x start "
         "clocks x ticker task, host-built x start clock x late spawn, every duration of the sweep with the stale "
         "deadline before / at / after the await, random mixes; also 1/3 of the Hypothesis and multi cases; "
+        "event payloads as a generated dimension (ids from a palette of 1-3 values, so that several tasks emit EQUAL "
+        "DriverEvents, also within one cycle: periodic emitters sharing / not sharing an id, complete enumeration of 2 "
+        "tasks x 1-2 steps with one id for every emission, random mixes; 1/4 of the Hypothesis and multi drivers); "
+        "budget magnitudes over the whole u64 range (u64::MAX, u64::MAX-1, 2^63(+1), 2^64-2^32, (u64::MAX - clock) + "
+        "{-2..2}, uniform 64-bit; also as tail budget) issued at clocks > 0 (later calls, start clocks up to 2^64-2^32), "
+        "sleeps small so that every wake-up stays far below 2^64; "
         "multi cases: 2-3 such drivers alive on one thread, run_for calls interleaved in a generated order with "
         "block_on interludes (futures that sleep and emit events, in completing or non-completing polls), drivers "
         "created up front or lazily, each compared with itself run alone.  "
@@ -77,9 +83,18 @@ ASSUMPTIONS = [
     "no progress obligation beyond the maintainers' tests: run_for(b) from clock c must serve exactly the wake-ups "
     "in [c, c+b) unless an event ends the run; budget is not consumed while idle (clock only moves to served "
     "wake-up cycles), so a task sleeping >= b is never reached by repeating run_for(b) -- not a violation",
-    "at most one emit_event per resumption (the statement's precondition); event ids unique per case",
-    "cycle values stay below 2^64 (no saturating arithmetic exercised); block_on() is not a subject (it is only "
+    "at most one emit_event per resumption (the statement's precondition); event VALUES need not be unique: 'every "
+    "emitted event exactly once, in emission order' is about emissions, so the returned sequence must equal the "
+    "emission sequence value by value (equal values from different resumptions are all returned)",
+    "wake-up cycles stay far below 2^64-1 (no saturating wake-up exercised); budgets do range over the whole u64 "
+    "domain: run_for(b) from clock c serves the wake-ups in [c, c+b) with c+b taken mathematically (== the "
+    "saturating sum the unchanged driver computes, because no wake-up reaches 2^64-1), so an 'unlimited' budget runs "
+    "to the next event or to completion; block_on() is not a subject (it is only "
     "used as a second user of the thread between run_for calls; nothing is asserted about its own timing)",
+    "CPU cases: before AsyncRuntimeRunner::run_instructions is entered, the host loop it runs (run_for(slice) until "
+    "the completion event, slice+1 after an idle call) is rehearsed with a bound of 1000 calls on a scratch driver "
+    "with the same clock and slice and a sleep-one-cycle task; the unchanged crate needs <= 3 calls; a stall is the "
+    "verdict no-progress (a call-count watchdog, no wall clock) and the crate's unbounded loop is not entered",
     "a driver's behaviour is a function of its own tasks, clock and run_for calls only: other AsyncDrivers or "
     "block_on running on the same thread between its calls are not inputs of any of its tasks, so every verdict "
     "must hold for each driver of an interleaved group and its observation must equal the stand-alone run",
